@@ -48,12 +48,31 @@ pub fn build_base(path: &str, pagesize: u64, commits_code: usize) -> Result<Base
     let cfg = Cfg { pagesize, num_pages: 32, ..Cfg::default() };
     let mut r = Runner::new(path, cfg.clone())?;
     let mut states = vec![BucketM::default()];
-    let noop_tail = commits_code >= 1000;
+    let noop_tail = (1000..2000).contains(&commits_code);
+    // 2000 + n: n commits, both headers rewritten into the legacy (<= 0.10) format with the handle
+    // closed, then one more commit by the current code (the upgrade commit)
+    let legacy_upgrade = commits_code >= 2000;
     let commits = commits_code % 1000;
     for i in 1..=commits {
         let v = r.step(&Action::Tx { ops: commit_ops(i), commit: true }, &Oracles::NONE);
         if !v.is_empty() || r.poisoned {
             return Err(format!("base construction failed at commit {}: {:?}", i, v));
+        }
+        states.push(r.model.clone());
+    }
+    if legacy_upgrade {
+        drop(r);
+        let mut bytes = std::fs::read(path).map_err(|e| e.to_string())?;
+        crate::compatx::legacy_rehead(&mut bytes, pagesize, &[0, 1]);
+        {
+            use std::os::unix::fs::FileExt;
+            let f = std::fs::OpenOptions::new().write(true).open(path).map_err(|e| e.to_string())?;
+            f.write_all_at(&bytes[..2 * pagesize as usize], 0).map_err(|e| e.to_string())?;
+        }
+        r = Runner::adopt(path, cfg.clone(), states.last().unwrap().clone())?;
+        let v = r.step(&Action::Tx { ops: commit_ops(commits + 1), commit: true }, &Oracles::NONE);
+        if !v.is_empty() || r.poisoned {
+            return Err(format!("base construction failed at the upgrade commit: {:?}", v));
         }
         states.push(r.model.clone());
     }
@@ -330,8 +349,13 @@ pub fn run(check: &mut Check) {
         let mut codes: Vec<usize> = (0..=ncommits).collect();
         // the same with a final write transaction that changes nothing
         codes.push(1002);
+        // legacy-format files with an even / odd number of commits, upgraded by one commit
+        codes.push(2002);
+        codes.push(2003);
         if tier == Tier::Thorough {
             codes.push(1005);
+            codes.push(2004);
+            codes.push(2005);
         }
         for commits in codes {
             for slot in 0..2 {
